@@ -21,7 +21,9 @@ CAPS = ("and who already tests with unusual and algebraically structured inputs,
         "set_rounds, clone, ==, serialisation) mixed into every history, single requests of more than 2^32 bytes, timers frozen for "
         "millions of readings that then resume, states far along in the stream (block counters near 2^24, 2^32, 2^56, 2^64), "
         "gigabytes of output from one instance, sources that deliver a short key followed by zeros, constructions that fail half way, "
-        "runs on freshly spawned threads ")
+        "runs on freshly spawned threads, other targets (big-endian s390x / mips and 32-bit i686, interpreted by Miri, which also "
+        "reports undefined behaviour), an unwritable stderr, every cargo feature combination, values solved to satisfy relations "
+        "(equal halves, pool == 0 after test_timer), families of same-state siblings doing jump() / long_jump() ")
 for f in sorted(glob.glob(f"/tmp/seed/C??-{prev}.full.txt")):
     pid = os.path.basename(f)[:3]
     s = open(f).read().replace(f"{pid}-{prev}", f"{pid}-{new}")
